@@ -2,6 +2,7 @@ package props
 
 import (
 	"fmt"
+	"strings"
 
 	"github.com/RoaringBitmap/roaring/v2/roaring64"
 	"verifmc/internal/ev"
@@ -97,6 +98,29 @@ func creations64() []creation64 {
 			return nil, op.Model(a.M, b.M), nil
 		}})
 	}
+	// the same bitmap as both operands of a static operation: the result must still be a bitmap of its own
+	for _, op := range binOps64 {
+		op := op
+		if op.Name == "Xor" || op.Name == "AndNot" {
+			continue
+		}
+		cs = append(cs, creation64{Name: op.Name + "(a,a)", F: func(a, b *reg64) (*roaring64.Bitmap, *model.Set64, *ev.Fail) {
+			return op.Static(a.B, a.B), op.Model(a.M, a.M), nil
+		}})
+	}
+	for _, v := range []struct {
+		name string
+		f    func(...*roaring64.Bitmap) *roaring64.Bitmap
+	}{{"FastAnd(a,a)", roaring64.FastAnd}, {"FastOr(a,a)", roaring64.FastOr}, {"ParOr(2,a,a)", func(bs ...*roaring64.Bitmap) *roaring64.Bitmap { return roaring64.ParOr(2, bs...) }}} {
+		v := v
+		cs = append(cs, creation64{Name: v.name, F: func(a, b *reg64) (*roaring64.Bitmap, *model.Set64, *ev.Fail) {
+			out := v.f(a.B, a.B)
+			if out == a.B {
+				return nil, nil, fail(v.name, "returns-input", "%s returned its input bitmap itself instead of an independent bitmap", v.name)
+			}
+			return out, a.M.Clone(), nil
+		}})
+	}
 	vari := func(name string, f func(...*roaring64.Bitmap) *roaring64.Bitmap, mf func(a, b *model.Set64) *model.Set64, single bool) creation64 {
 		return creation64{Name: name, F: func(a, b *reg64) (*roaring64.Bitmap, *model.Set64, *ev.Fail) {
 			args := []*roaring64.Bitmap{a.B, b.B}
@@ -190,7 +214,7 @@ func c07Scenario64(c *Ctx) explore.Scenario {
 		}
 		crs, maxWrites = keep, 12
 	}
-	return &explore.Product{Name: "64-bit: inputs^2 x creation x cow switch x (register, write)", Dims: []int{len(pool), len(pool), len(crs), 4, 4, maxWrites}, Deadline: c.Budget(118, 1790),
+	return &explore.Product{Name: "64-bit: inputs^2 x creation x cow switch x (register, write)", Dims: []int{len(pool), len(pool), len(crs), 4, 4, maxWrites}, Deadline: c.Budget(175, 1790),
 		Run: func(idx []int) (string, *ev.Fail) {
 			aw, bw := pool[idx[0]].Build(), pool[idx[1]].Build()
 			a, b := &reg64{Name: "a", B: aw.B, M: aw.M}, &reg64{Name: "b", B: bw.B, M: bw.M}
@@ -200,6 +224,9 @@ func c07Scenario64(c *Ctx) explore.Scenario {
 				b.B.SetCopyOnWrite(true)
 			}
 			cr := crs[idx[2]]
+			if strings.HasSuffix(cr.Name, "(a,a)") && idx[1] != 0 {
+				return "self-creation: b plays no part", nil
+			}
 			regs := []*reg64{a, b}
 			if cr.Three {
 				a.Third = third64()
